@@ -102,6 +102,11 @@ def single_edits(base):
             var = "\n".join(lines[:i] + [lines[i] + c] + lines[i + 1:])
             feat = "after-for-header-line" if False else ""
             edits.append(("trailing-comment", (i, c), feat, var))
+    # (1') one to three blanks in front of an unindented line (between the line break and its first token)
+    for i in range(len(lines) - 1):
+        if lines[i].strip() and not lines[i].startswith((" ", "\t")):
+            for nsp in (1, 2, 3):
+                edits.append(("leading-blanks", (i, nsp), "after-loop-body" if i and roles[i - 1].startswith("loopbody") else "", "\n".join(lines[:i] + [" " * nsp + lines[i]] + lines[i + 1:])))
     # (2') what a comment says: anything up to the line end is comment text - a trailing backslash, quotes, brackets,
     # statements, keywords, parameters, further # signs, non-ASCII text, tabs
     for i in range(len(lines) - 1):
